@@ -823,12 +823,18 @@ func ruleScanStart(c *Check, p *Prog) {
 		r := RecvTerm(n)
 		return r != nil && r.Op == "alloc"
 	})
-	if len(inits) != 1 {
-		c.Unk("C09-R7", "NewManager ⟂ cursor-init", fn, "", fmt.Sprintf("anchor lost: %d initial stores of a local atomic counter in NewManager", len(inits)))
+	if len(inits) == 0 {
+		c.Unk("C09-R7", "NewManager ⟂ cursor-init", fn, "", "anchor lost: no initial store of a local atomic counter in NewManager")
 		return
 	}
+	// every value the cursor can start with is the persisted DA height itself
+	okV := true
 	v := ArgTerm(inits[0], 1)
-	okV := v.Op == "field" && v.Name == "DAHeight"
+	for _, in := range inits {
+		if iv := ArgTerm(in, 1); !(iv.Op == "field" && iv.Name == "DAHeight") {
+			okV, v = false, iv
+		}
+	}
 	// the raise: a store state.DAHeight = config.DA.StartHeight guarded by state.DAHeight < config.DA.StartHeight, before the init
 	raise := g.Select(func(n *Node) bool {
 		st, ok := n.In.(*ssa.Store)
@@ -851,7 +857,7 @@ func ruleScanStart(c *Check, p *Prog) {
 	if okV && guarded && before {
 		c.OK("C09-R7", "NewManager ⟂ cursor = max(state.DAHeight, configured start)", fn, p.InstrPos(inits[0].In), "the scan starts at the persisted DA height, raised to the configured start height when that is higher", true)
 	} else {
-		c.Bad("C09-R7", "NewManager ⟂ cursor = max(state.DAHeight, configured start)", fn, p.InstrPos(inits[0].In), fmt.Sprintf("the scan cursor is not initialised to max(state.DAHeight, config.DA.StartHeight) (from-state=%v raise-guarded=%v raise-before-init=%v): DA heights at or after the configured start can be skipped, or the scan starts before it", okV, guarded, before), nil)
+		c.Bad("C09-R7", "NewManager ⟂ cursor = max(state.DAHeight, configured start)", fn, p.InstrPos(inits[0].In), fmt.Sprintf("the scan cursor is not initialised to max(state.DAHeight, config.DA.StartHeight) (from-state=%v [a start value is "+trunc(v.String(), 60)+"] raise-guarded=%v raise-before-init=%v): DA heights at or after the configured start can be skipped, or the scan starts before it", okV, guarded, before), nil)
 	}
 }
 
